@@ -388,7 +388,9 @@ package graphql
 //@   ensures errs == nil ==> rc.Doc != nil && rc.Operation != nil && rc.Operation == forName(rc.Doc.Operations, rc.OperationName)
 //@ trusted (GraphExecutor).DispatchOperation(ctx, rc) (h, c)
 //@   requires rc != nil
+// (assumption: response interceptors return the response they were given or another non-nil one)
 //@ trusted (GraphExecutor).DispatchError(ctx, list) (resp)
+//@   ensures resp != nil
 //@ trusted (GraphExecutor).PresentRecoveredError(ctx, err) (e)
 
 // ---------------------------------------------------------------- C10: upload map paths
